@@ -576,7 +576,14 @@ func hunt(o Opts) {
 	}
 	var r res
 	seen := map[string]bool{}
+	classOf := func(c Case, f string) string {
+		return fmt.Sprint(c.Kind, c.Mode, c.UT, c.InSituA, prefixMask(c.Msk), c.Dense) + "|" + stripNumbers(f)
+	}
 	report := func(c Case) {
+		if seen["pre:"+classOf(c, propCheck(c))] {
+			return
+		}
+		seen["pre:"+classOf(c, propCheck(c))] = true
 		c = shrink(c)
 		f := propCheck(c)
 		key := fmt.Sprint(c.Kind, c.Mode, c.UT, c.InSituA, prefixMask(c.Msk), c.Dense) + "|" + stripNumbers(f)
